@@ -163,6 +163,14 @@ def run(ctx, config='rel-all'):
     ctx.floor('R3', npairs, 15, 'fallible/infallible pairs')
     # ---- O4 termination of the halving retry
     check_termination(ctx, db, config)
+    # ---- R5 'a later request that fits still succeeds' / Err only when the memory is not there: the bumping function refuses
+    # only requests strictly larger than the space left (shared with C18.O6) -- otherwise the slow path acquires a chunk
+    # sized exactly for the request and the retry is refused again (debug_assert / spurious Err with the chunk kept)
+    from . import c18, c19
+    c18.check_exact_refusal(ctx, arena.analyse(ctx, config), config, 'R5')
+    # ---- R6 no abort: unchecked Layout construction in the arena is justified (an invalid Layout is a non-unwinding
+    # precondition panic in debug builds and undefined behaviour in release builds); shared with C19.R5
+    c19.check_unchecked_layouts(ctx, db, config, 'R6', lambda sp: sp.startswith('src/lib.rs') or sp.startswith('src/alloc.rs'))
     # ---- R4 debug builds
     if config == 'rel-all':
         check_debug(ctx)
